@@ -405,6 +405,9 @@ class SymReal:
     def __float__(self):
         raise Unsupported('a symbolic value was converted to a Python float (unsupported library call)')
 
+    def __format__(self, spec):
+        return repr(self)          # messages only
+
     def __bool__(self):
         # truth value of a float: non-zero (NaN is true); forks the path like any other test
         return CTX.branch(z3.Or(self.nan, self.val != 0))
@@ -465,6 +468,8 @@ class SA(_np.ndarray):
         raise Unsupported('astype(%r) on a symbolic array' % (dt,))
 
     def _mask(self, idx):
+        if isinstance(idx, tuple):
+            return tuple(self._mask(e) for e in idx)
         if isinstance(idx, _np.ndarray) and idx.dtype == object and idx.size and all(isinstance(e, (SymBool, bool, _np.bool_)) for e in idx.flat):
             return _np.array([bool(e) for e in idx.flat], dtype=bool).reshape(idx.shape)
         return idx
@@ -563,6 +568,10 @@ class NPProxy:
     def isinf(self, x):
         r = NPProxy._elem(lambda v: SymBool(v.inf) if isinstance(v, SymReal) else bool(_np.isinf(v)), x)
         return _np.isinf(x) if r is None else r
+
+    def isfinite(self, x):
+        r = NPProxy._elem(lambda v: SymBool(z3.And(z3.Not(v.nan), z3.Not(v.inf))) if isinstance(v, SymReal) else bool(_np.isfinite(v)), x)
+        return _np.isfinite(x) if r is None else r
 
     def isclose(self, a, b, rtol=1e-05, atol=1e-08, equal_nan=False):
         if not (symbolic(a) or symbolic(b)):
@@ -687,6 +696,11 @@ class NPProxy:
         if not symbolic(x):
             return _np.sum(x, axis=axis, **k)
         a = _np.asarray(x, dtype=object).view(_np.ndarray)
+        if a.size and any(isinstance(e, SymBool) for e in a.flat):
+            # counting booleans: each contributes 0 or 1 (an if-then-else term, no fork)
+            b = _np.empty(a.shape, dtype=object)
+            b.flat = [SymReal(z3.If(e.e, rv(1), rv(0))) if isinstance(e, SymBool) else SymReal.lift(float(e)) for e in a.flat]
+            a = b
         r = _np.add.reduce(a, axis=axis) if axis is not None else _np.add.reduce(a.ravel())
         return r.view(SA) if isinstance(r, _np.ndarray) else r
 
